@@ -34,6 +34,11 @@ def run(ctx):
         'placed from the ring before it with the pair (previous thickness, '
         'own thickness); the pairs chain through the sequence of '
         'flat-to-flat boundaries for every duct index (symbolic index)']
+    ctx.decided += [
+        'R6 the connection pass over the concentric rings outside the bundle '
+        'visits exactly the 2 n_duct - 1 rings that the cell count formula '
+        '(R3) allocates: loop bounds are polynomials in n_duct with lower '
+        'bound 1 and upper bound 2 n_duct']
     ctx.not_decided += ['symmetry and neighbour counts of the run-time '
                         'adjacency', 'centroid coordinates as numbers']
     r1(ctx)
@@ -44,6 +49,8 @@ def run(ctx):
     ctx.min_instances('C08.R4', 9)
     _hexgeom.check_ring_chain(ctx, 'C08.R5')
     ctx.min_instances('C08.R5', 6)
+    r6(ctx)
+    ctx.min_instances('C08.R6', 1)
     ctx.min_instances('C08.R1', 8)
     ctx.min_instances('C08.R2', 2)
     ctx.min_instances('C08.R3', 7)
@@ -476,3 +483,35 @@ def r3(ctx):
                 '3 f0 + 2 f1, corner pin 2 f0 + 2 f1 + f2 must each be 1 '
                 '(table %s)' % (q,), key='dassh.region_rodded | q_p2sc sums')
     return ci, ce, cc
+
+
+# ---------------------------------------------------------------------------
+# R6: ring connection pass covers all rings
+
+def r6(ctx):
+    fi = ctx.repo.func('subchannel', 'Subchannel._connect_duct_bypass_sc')
+    loops = [n for n in fi.node.body if isinstance(n, ast.For)
+             and call_name(n.iter) == 'range']
+    if len(loops) != 1:
+        raise AnalysisError('_connect_duct_bypass_sc: ring loop')
+    lp = loops[0]
+    args = lp.iter.args
+    lo = args[0] if len(args) >= 2 else ast.Constant(value=0)
+    hi = args[1] if len(args) >= 2 else args[0]
+    ftf = [p for p in fi.params if 'ftf' in p]
+    at = {'len(%s)' % p: 'nd' for p in ftf}
+    at.update({'self.n_duct': 'nd', 'self.n_bypass + 1': 'nd'})
+    try:
+        lo_p = from_ast(U.expand_locals(fi.node, lo, before=lp.lineno), at)
+        hi_p = from_ast(U.expand_locals(fi.node, hi, before=lp.lineno), at)
+        ok = lo_p.equals(Rat.const(1)) and hi_p.equals(
+            Rat.const(2) * Rat.sym('nd'))
+        why = 'range(%s, %s)' % (src(lo), src(hi))
+    except NotPolynomial as e:
+        ok = False
+        why = 'the bound %s is not a polynomial in the duct count' % e
+    ctx.require(ok, 'C08.R6', fi, lp,
+                'the ring pass must visit rings 1 .. 2 n_duct - 1 (every duct '
+                'wall and every bypass gap outside the innermost duct), for '
+                'every duct count; found %s' % why,
+                key=fi.full + ' | ring count')
